@@ -957,6 +957,20 @@ fn ports_sound_unit(ctx: &Ctx, seed: u64, st: &mut Stats, id: u64) {
         for _ in 0..7 {
             let _ = energy(&mut m);
         }
+        // the host switches the AY off for a while; register writes made meanwhile are not lost:
+        // the shape written while it was off is what plays when it is switched on again
+        m.emu.set_ay_enabled(false);
+        log.push("host: set_ay_enabled(false)".into());
+        wr(&mut m, &mut log, 13, shape, true);
+        for _ in 0..2 {
+            let _ = energy(&mut m);
+        }
+        m.emu.set_ay_enabled(true);
+        log.push("host: set_ay_enabled(true)".into());
+        let (e4, _) = energy(&mut m);
+        for _ in 0..7 {
+            let _ = energy(&mut m);
+        }
         // pitch: fixed volume, same tone period rewritten
         wr(&mut m, &mut log, 8 + ch, 0x0F, true);
         wr(&mut m, &mut log, 2 * ch, tp as u8, true);
@@ -967,7 +981,7 @@ fn ports_sound_unit(ctx: &Ctx, seed: u64, st: &mut Stats, id: u64) {
             m.run_frames(1);
             x.extend(m.drain_audio().iter().map(|s| (s.0 + s.1) as f64));
         }
-        (e1, e2, e3, x)
+        (e1, e2, e3, e4, x)
     });
     st.evals += 1;
     st.port_sound += 1;
@@ -975,7 +989,7 @@ fn ports_sound_unit(ctx: &Ctx, seed: u64, st: &mut Stats, id: u64) {
     let wit = || jobj! {"monitor"=>"ports-sound","case"=>id,"is128"=>cfg.is128,"shape"=>shape,"ep"=>ep,"tone_period"=>tp,"log"=>J::Arr(log.iter().map(|s|J::from(s.as_str())).collect())};
     match res {
         Err(p) => ctx.violation("ay-port-panic", &format!("AY port access panicked: {}", p), wit()),
-        Ok((e1, e2, e3, x)) => {
+        Ok((e1, e2, e3, e4, x)) => {
             if std::env::var("VERIF_C18_DEBUG").is_ok() {
                 eprintln!("ports-sound id={} 128={} mode={} beeper={} shape={} ep={} tp={} e1={:.3e} e2={:.3e} e3={:.3e} log={:?}", id, cfg.is128, cfg.ay_mode, cfg.beeper, shape, ep, tp, e1, e2, e3, log);
             }
@@ -985,6 +999,9 @@ fn ports_sound_unit(ctx: &Ctx, seed: u64, st: &mut Stats, id: u64) {
                 ctx.violation("ay-port-envelope-not-finished", &format!("one-shot envelope shape {} (EP {}, 16 steps = {:.0} ms) is still sounding 8 frames later (energy {:.2e} vs {:.2e} at the start)", shape, ep, 256.0 * ep as f64 / 1773.4, e2, e1), wit());
             } else if e3 < e1 * 0.3 {
                 ctx.violation("ay-port-envelope-not-restarted", &format!("writing R13={} again (same shape) through the ports did not restart the envelope: tone energy {:.2e} after the rewrite vs {:.2e} after the first write", shape, e3, e1), wit());
+            }
+            if e1 >= 1e-4 && e4 < e1 * 0.3 {
+                ctx.violation("ay-port-envelope-written-while-switched-off", &format!("R13={} written while the host had the AY switched off did not take effect when it was switched on again: tone energy {:.2e} vs {:.2e} after the first write", shape, e4, e1), wit());
             }
             let f = 1_773_400.0 / (16.0 * tp as f64) / 44100.0;
             if x.len() < 8000 {
